@@ -13,6 +13,10 @@ spec -> code : TLC enumerates every command list of the configuration (exit stat
 code -> spec : seeded random longer command lists (more exit statuses, signals, three ways of not
                starting, both modes) and random name lists over a larger alphabet are executed; TLC
                evaluates the clauses of RunCmd on the recorded observations (RunCmdTrace.tla).
+
+Files below the output root: the TLC state holds what the statement requires (the task's directory and its two capture
+files); these must be found.  Whatever else is found is judged by TLC (clause Fs = RunCmd!FsCovers): allowed only below
+the directory of an accepted task, so a rejected name creates nothing; the clause is self-tested on made-up file systems.
 """
 import json
 import os
@@ -49,10 +53,12 @@ def _octal(text):
     return ''.join('\\%03o' % b for b in text.encode())
 
 
-def _config(root):
+def _config(root, side=None):
+    """Configuration with the given output root; the log / report roots are below it, or below `side`."""
     from valjean.config import Config
-    return Config({'path': {'output-root': root, 'log-root': os.path.join(root, '.log'),
-                            'report-root': os.path.join(root, '.report')}})
+    side = root if side is None else side
+    return Config({'path': {'output-root': root, 'log-root': os.path.join(side, '.log'),
+                            'report-root': os.path.join(side, '.report')}})
 
 
 # ---------------------------------------------------------------------------------------------
@@ -209,15 +215,26 @@ def observe_tool(case):
             with open(os.path.join(aux, 'cmd-%d.sh' % i), 'w') as f:
                 f.write(_cli(i, c, aux)[2] + '\n')
     targets = [['x', 'y', 'z'][j] for j in range(case['targets'])] if case['targets'] >= 0 else None
+    scripted = tool == os.path.join(aux, 'tool')
+    # The executable is the class attribute CMAKE / GIT, which "may be overridden before class instantiation": a throw-away
+    # subclass does that whether the task reads the attribute when it is built or when it runs.  As a second line the
+    # scripted tool is also first on PATH under the names cmake and git.
+    old_path = os.environ.get('PATH', '')
+    if scripted:
+        bindir = os.path.join(aux, 'bin')
+        os.makedirs(bindir)
+        for exe in ('cmake', 'git'):
+            os.symlink(tool, os.path.join(bindir, exe))
+        os.environ['PATH'] = bindir + os.pathsep + old_path
     if case['via'] == 'build':
         src = os.path.join(root, 'src')
         os.makedirs(src)
-        task = BuildTask('task', src, targets=targets, configure_flags=case.get('cflags'), build_flags=case.get('bflags'))
-        task.CMAKE = tool
+        task = type('ScriptedBuildTask', (BuildTask,), {'CMAKE': tool})(
+            'task', src, targets=targets, configure_flags=case.get('cflags'), build_flags=case.get('bflags'))
         log_key = 'build_log'
     else:
-        task = CheckoutTask('task', repository=os.path.join(root, 'repo'), flags=case.get('cflags'), ref=case.get('ref'))
-        task.GIT = tool
+        task = type('ScriptedCheckoutTask', (CheckoutTask,), {'GIT': tool})(
+            'task', repository=os.path.join(root, 'repo'), flags=case.get('cflags'), ref=case.get('ref'))
         log_key = 'checkout_log'
     obs = dict(status='NONE', raised=False, escaped=False, rcs=[], exc='')
     if case['mode'] == 'direct':
@@ -252,7 +269,11 @@ def observe_tool(case):
             invoked = int(f.read().strip() or 0)
     except OSError:
         invoked = 0
+    os.environ['PATH'] = old_path
     obs['invoked'] = invoked
+    # the tool can start and the task ended, yet the script never ran: the task used another executable, i.e. the harness
+    # failed to put its tool in place.  Nothing was observed of valjean: the case is not judged (DRIFT in run_c19).
+    obs['unbound'] = bool(scripted and invoked == 0)
     ran = _ran(case, obs)
     obs['rcs'] = [c['exit'] for c in ran if c['exit'] is not None]
     log = os.path.join(out_root, '.log', 'task.log')
@@ -329,7 +350,8 @@ def observe_names(names):
     from valjean.cosette.env import Env
     root = _scratch('c19n')
     out_root = os.path.join(root, 'out')
-    config = _config(out_root)
+    side = os.path.join(root, 'side')      # log / report roots: not the subject of the property, kept out of the way
+    config = _config(out_root, side)
     comp = {'stdout': ['stdout'], 'stderr': ['stderr']}
     for atoms in names:
         cur = []
@@ -341,9 +363,11 @@ def observe_names(names):
                 cur.append(a)
 
     def abstract(rel):
+        """Path below the root in atoms; a component that no name explains is one atom '?<component>' (distinct
+        components stay distinct: one kind per path)."""
         if rel in ('', '.'):
             return []
-        return [comp.get(c, ['?']) for c in rel.split(os.sep)]
+        return [comp.get(c, ['?' + re.sub(r'[^A-Za-z0-9._-]', lambda m: '%%%04x' % ord(m.group()), c)]) for c in rel.split(os.sep)]
 
     accepted, dirs, excs = [], [], []
     for idx, atoms in enumerate(names, 1):
@@ -359,7 +383,9 @@ def observe_names(names):
         accepted.append(idx)
         excs.append('')
         entry = env_up[task.name]
-        dirs.append([abstract(os.path.relpath(entry['output_dir'], out_root))])
+        # the task's directory is where its capture files are (documented keys stdout / stderr of the result)
+        cap_dir = os.path.realpath(os.path.dirname(os.fspath(entry['stdout'])))
+        dirs.append([abstract(os.path.relpath(cap_dir, os.path.realpath(out_root)))])
     fs = []
     if os.path.isdir(out_root):
         for cur, subdirs, files in os.walk(out_root):
@@ -374,13 +400,16 @@ def observe_names(names):
                                owner=owners[0] if len(owners) == 1 else 0))
     # anything created next to the output root (a name that climbed out of it)
     for other in sorted(os.listdir(root)):
-        if other != 'out':
+        if other not in ('out', 'side'):
             fs.append(dict(path=[['OUTSIDE'], ['?']], kind='file', owner=0))
     shutil.rmtree(root, ignore_errors=True)
     return dict(accepted=accepted, dirs=dirs, fs=fs, excs=excs)
 
 
 def _names_agrees(st, obs):
+    """Observation against the TLC state: the same tasks accepted, and every entry of the state's file system (what the
+    statement requires: directories and capture files with their owner) found.  What else was found is judged by TLC
+    (clause Fs of RunCmdTrace.tla: only below the directory of an accepted task)."""
     exp_acc = sorted(st['accepted'])
     exp_files = sorted((tuple(tuple(c) for c in e['path']), e['owner']) for e in st['fs'] if e['kind'] == 'file')
     exp_dirs = sorted(set(tuple(tuple(c) for c in e['path']) for e in st['fs'] if e['kind'] == 'dir'))
@@ -389,7 +418,7 @@ def _names_agrees(st, obs):
     problems = []
     if obs['accepted'] != exp_acc:
         problems.append('Rejected')
-    if got_files != exp_files or got_dirs != exp_dirs:
+    if not (set(exp_files) <= set(got_files) and set(exp_dirs) <= set(got_dirs)):
         problems.append('Fs')
     for idx in obs['accepted']:
         d = obs['dirs'][idx - 1][0]
@@ -460,6 +489,28 @@ def tlc_verdict(records, wd, ctx=None, name='RunCmdTrace'):
     return verdict
 
 
+def _fs_probes():
+    """Made-up observations of two accepted tasks a, b (and a rejected one) with the verdict the clause Fs must give: what
+    a task leaves in its own directory is its business, anything else below the root is not.  [(case, obs, Fs fails)]"""
+    def ent(path, kind, owner=0):
+        return dict(path=[[c] for c in path], kind=kind, owner=owner)
+    names = [['a'], ['b'], ['a', 'NUL']]
+    need = [ent(['a'], 'dir'), ent(['a', 'stdout'], 'file', 1), ent(['a', 'stderr'], 'file', 1),
+            ent(['b'], 'dir'), ent(['b', 'stdout'], 'file', 2), ent(['b', 'stderr'], 'file', 2)]
+    variants = [
+        (need, False),
+        (need + [ent(['a', '?manifest.json'], 'file'), ent(['a', '?.done'], 'file', 1)], False),
+        (need + [ent(['b', '?work'], 'dir'), ent(['b', '?work', '?x'], 'file', 2)], False),
+        (need + [ent(['?manifest.json'], 'file')], True),                       # next to the task directories
+        (need + [ent(['?c'], 'dir'), ent(['?c', '?x'], 'file')], True),         # a directory of nobody (the rejected task's?)
+        (need[:5], True),                                                       # a capture file is missing
+        (need[:4] + [ent(['b', 'stdout'], 'file', 1), need[5]], True),          # ... or holds another task's output
+        (need[:4] + [ent(['b', 'stdout'], 'file', 0), need[5]], True),          # ... or not only its task's
+        (need + [ent(['OUTSIDE', '?'], 'file')], True)]
+    dirs = [[[['a']]], [[['b']]], []]
+    return [(dict(op='names', names=names), dict(accepted=[1, 2], dirs=dirs, fs=fs, excs=['', '', 'probe']), bad) for fs, bad in variants]
+
+
 def _observe(case):
     if case['op'] == 'run':
         return observe_run(case) if case.get('via', 'run') == 'run' else observe_tool(case)
@@ -470,6 +521,9 @@ def replay_case(case):
     import core
     core.use_repo()
     obs = _observe(case)
+    if obs.get('unbound'):
+        return True, 'not judged: the scripted %s was never invoked (the harness could not put its tool in place): %s' % (
+            'cmake' if case.get('via') == 'build' else 'git', obs)
     verdict = tlc_verdict([(1, case, obs)], tlc.workdir('c19r'))
     if not verdict:
         return True, 'all clauses of RunCmd.tla hold on the observation %s' % (obs,)
@@ -505,6 +559,10 @@ def run_c19(ctx):
              '(valjean/cosette/code.py) with a scripted cmake / git that counts its invocations and exits as the plan says: the '
              'command list judged is the plan up to the number of invocations, targets / flags / ref vary. distinct_nontrivial counts '
              'distinct cases with at least one non-zero status, unstartable command or invalid / colliding name.')
+    ctx.assume('a task may leave other files in its own directory (the statement speaks of the capture files only): the required '
+               'entries must be there, anything else must lie below the directory of an accepted task (clause Fs)')
+    ctx.assume('the executable of BuildTask / CheckoutTask is set as class attribute of a throw-away subclass before '
+               'instantiation (and put first on PATH); a startable scripted tool that was never invoked is DRIFT, not judged')
     ctx.assume('single task per scheduler run (no interleaving claim); sh and printf behave as POSIX says')
     ctx.assume('stderr: the commands\' tokens must appear in order; the `$ cmd` echo lines are extra (DESIGN 8.1)')
     ctx.assume('called directly, a command that cannot be started may surface as an exception of do() or as a FAILED result; '
@@ -543,6 +601,7 @@ def run_c19(ctx):
                 ctx.sample(dict(case=case, observed=obs, expected=exp))
 
     # ---- spec -> code: names
+    model_names = []      # these observations also go to RunCmdTrace: what was found beyond the TLC state is judged there
     name_cfgs = [('names-triples', 'NL_Triples'), ('names-singles', 'NL_Singles')]
     if not ctx.quick:
         name_cfgs.append(('names-pairs', 'NL_Pairs'))
@@ -555,6 +614,7 @@ def run_c19(ctx):
         dbg('%s executed' % name)
         for st, names, obs in zip(states, lists, observations):
             n_exec += 1
+            model_names.append((dict(op='names', names=names), obs))
             problems, exp = _names_agrees(st, obs)
             if problems:
                 valid = [j in exp['accepted'] for j in range(1, len(names) + 1)]
@@ -631,8 +691,30 @@ def run_c19(ctx):
     dbg('witnesses done')
     observations = pool.map(_observe, cases, chunksize=8)
     dbg('random cases executed')
-    records = [(cid, case, obs) for cid, (case, obs) in enumerate(zip(cases, observations), 1)]
+    n_random = len(cases)
+    # a startable scripted cmake / git that was never invoked: the harness did not manage to substitute the executable
+    # (nothing of valjean was observed) -- such cases are not judged
+    unbound = {}
+    for case, obs in zip(cases, observations):
+        if obs.get('unbound'):
+            unbound.setdefault(case['via'], []).append((case, obs))
+    for via, lst in sorted(unbound.items()):
+        ctx.drift('%s: the scripted %s was never invoked in %d of %d cases although it can start (e.g. %s -> %s): the task runs '
+                  'another executable than the one set as class attribute / first on PATH; these cases are not judged'
+                  % (via, 'cmake' if via == 'build' else 'git', len(lst), sum(1 for c in cases if c.get('via') == via),
+                     {k: lst[0][0][k] for k in ('mode', 'cmds', 'targets')}, {k: lst[0][1][k] for k in ('status', 'raised', 'invoked')}))
+    pairs = [(c, o) for c, o in zip(cases, observations) if not o.get('unbound')] + model_names
+    n_model = len(model_names)
+    probes = _fs_probes()
+    records = [(cid, case, obs) for cid, (case, obs) in enumerate(pairs + [(c, o) for c, o, _bad in probes], 1)]
     verdict = tlc_verdict(records, wd, ctx, 'RunCmdTrace/random')
+    # self-test of the clause Fs on the made-up observations: TLC must fail exactly the ones marked
+    for (cid, _case, obs), (_c, _o, bad) in zip(records[len(pairs):], probes):
+        got = verdict.pop(cid, [])
+        if ('Fs' in got) != bad or (not bad and got):
+            raise tlc.MachineryError('RunCmdTrace: clause Fs %s on the made-up file system %s (failing clauses %s)'
+                                     % ('holds' if bad else 'fails', obs['fs'], got))
+    records = records[:len(pairs)]
     # Valid(name) as TLC sees it, for the names of the failing lists: a single-name case observed as "rejected"
     # fails the clause Rejected exactly when the name is valid
     suspects = sorted(set(tuple(n) for cid in verdict for n in records[cid - 1][1].get('names', [])))
@@ -655,13 +737,13 @@ def run_c19(ctx):
             ctx.distinct(('run', case['mode'], tuple((c['exit'], c['nout'], c['nerr']) for c in case['cmds'])))
         elif case['op'] == 'names' and len(obs['accepted']) < len(case['names']):
             ctx.distinct(('names', tuple(tuple(n) for n in case['names'])))
-    ctx.count(evaluations=len(records), traces=len(records))
+    ctx.count(evaluations=n_random, traces=len(records) - n_model)      # the model's name lists were counted above
     ctx.sample(dict(source='random', case=records[0][1], observed=records[0][2]))
     pool.close()
     dbg('done')
     ctx.cov['exhaustive'] = True
     ctx.cov['explanation'] = ('every terminal state of the RunCmd.tla configurations in tlc_runs executed (%d); %d random cases judged by TLC'
-                              % (n_exec, len(records)))
+                              % (n_exec, len(records) - n_model))
     # extra module: what a PythonTask may do to shared state (PyTask.tla, observations only, see conf_pytask.py)
     import conf_pytask
     ctx.extra('PyTask', conf_pytask.run, tlc.workdir('c19pytask'))
